@@ -44,6 +44,11 @@ type Opts struct {
 	AllowMissing bool
 	EnsurePath   bool
 	Legacy       bool // v4 dialect: no root-replacing add, no copy from ""
+	// NullMemberIsMissing: under EnsurePath, an object member on the path whose value is null
+	// is replaced, in place, by the container the path needs (what the library does: such a
+	// member reads as "no value"). Outside C14's stated domain; used by C05, which only asks
+	// where the member ends up. Off: such a path is out of the comparing domain.
+	NullMemberIsMissing bool
 }
 
 type Result struct {
@@ -51,6 +56,7 @@ type Result struct {
 	FailIndex int // -1 when all applied
 	Cause     Cause
 	OutOfDom  string // non-empty: reason the case is outside the comparing domain
+	Soft      string // non-empty: the case used a dialect extension (see Opts.NullMemberIsMissing)
 	Skipped   []int  // removes skipped under AllowMissing
 	Copies    []Copy // accounted copies, in order
 }
@@ -70,6 +76,7 @@ type Evaluator struct {
 	Skipped []int
 	Copies  []Copy
 	Created []string // pointers of containers created by EnsurePath (diagnostic)
+	Soft    string
 	n       int
 }
 
@@ -304,6 +311,22 @@ func (e *Evaluator) ensure(toks []string) {
 		ptr += "/" + jr.EncTok(t)
 		nx, c := e.child(cur, t)
 		if c == OK {
+			if nx.K == jr.Null && cur.K == jr.Obj && e.O.NullMemberIsMissing {
+				// add-on-existing: the member keeps its position, its value becomes the new container
+				e.Soft = "null member on an ensure path"
+				if _, neg, ok := e.index(toks[i+1]); (ok && !neg) || toks[i+1] == "-" {
+					*nx = jr.Value{K: jr.Arr}
+				} else if ok && neg {
+					e.setOOD("ensure: negative index")
+					return
+				} else {
+					*nx = jr.Value{K: jr.Obj}
+				}
+				e.Created = append(e.Created, ptr)
+				cur = nx
+				created = true
+				continue
+			}
 			if nx.K != jr.Obj && nx.K != jr.Arr {
 				e.setOOD("ensure: null/scalar on path")
 				return
@@ -571,6 +594,7 @@ func Eval(doc *jr.Value, ops []Op, o Opts) Result {
 			res.OutOfDom = e.OOD
 			res.Skipped = e.Skipped
 			res.Copies = e.Copies
+			res.Soft = e.Soft
 			return res
 		}
 	}
@@ -578,6 +602,7 @@ func Eval(doc *jr.Value, ops []Op, o Opts) Result {
 	res.OutOfDom = e.OOD
 	res.Skipped = e.Skipped
 	res.Copies = e.Copies
+	res.Soft = e.Soft
 	return res
 }
 
